@@ -51,7 +51,9 @@ def obligations(tier):
                ('before xx', 'before'), ('after  xx', 'after'), ('since xx', 'since'), ('around xx', 'approx'), ('before around xx', 'before-approx'),
                ('no later than xx', 'before'), ('as late as xx', 'until'), ('until xx', 'before'), ('prior to the xx', 'before'), ('later than xx', 'after'),
                ('starting from xx', 'since'), ('xx', ''))] +
-                  [{'text': 'xx or later', 'body': 'xx', 'mod': 'since', 'dtype': d} for d in ('date', 'time')],
+                  [{'text': 'xx or later', 'body': 'xx', 'mod': 'since', 'dtype': d} for d in ('date', 'time')] +
+                  [{'text': tx, 'body': 'xx', 'mod': '*', 'dtype': d, 'loose_body': 1} for d in ('date', 'datetime') for tx in ('xx and after', 'xx or after', 'xx and later')
+                   if not (d == 'datetime' and tx == 'xx and later')],      # 'or/and later' is only attached to dates, times and date periods
            descr='BaseMergedParser.parse strips a modifier, parses the rest at a consistent sub-span, and restores start/length/text of the whole entity; the modifier is reported',
            bounds='entity start offset 0..200 symbolic; one slice per modifier phrase x entity type (real English modifier regexes on the concrete phrase; inner parser stubbed)',
            encodes=['recognizers_date_time.date_time.base_merged:BaseMergedParser.parse', 'recognizers_text.utilities:RegExpUtility.match_begin',
@@ -83,4 +85,11 @@ def obligations(tier):
                            'recognizers_number_with_unit.number_with_unit.extractors:NumberWithUnitExtractor.extract', 'recognizers_date_time.date_time.base_merged:BaseMergedExtractor.extract',
                            'recognizers_number.number.extractors:BaseNumberExtractor.extract', 'recognizers_text.utilities:QueryProcessor.preprocess'],
                   engine='symx (solver-driven small-scope enumeration); the recognisers run natively'))
+    cults = ['en-us', 'es-es', 'fr-fr', 'pt-br', 'de-de', 'it-it', 'nl-nl', 'zh-cn', 'ja-jp']
+    obs.append(Ob('O1.10-corpus-spans', 'fn', 'harness.corpus:span_scan', slices=[dict({'culture': c}, **({'all_files': 1} if tier == 'thorough' else {})) for c in cults], timeout=max(t, 600),
+                  descr='composition check (not a solver verdict): every input of the culture\'s Specs files -- used as a pool of realistic queries; the expected outputs are not consulted -- through the public '
+                        'recognisers: 0 <= start <= end < len, text = normalised slice, entities pairwise disjoint; anomalies attributed by the call-site monitors to F3a / F36 / F37 / F41 are excused, the two '
+                        'Spanish inputs of F43 are skipped',
+                  bounds='model-level files of 9 cultures, about 10 000 queries (thorough: every DateTime / Number / NumberWithUnit Specs file of the culture, about 25 000 queries)',
+                  encodes=['recognizers_date_time.date_time.base_merged:BaseMergedExtractor.extract', 'recognizers_date_time.date_time.base_merged:BaseMergedParser.parse']))
     return obs
